@@ -708,6 +708,7 @@ def space_d(ctx, st):
 # ---- driver --------------------------------------------------------------------------------------------------
 
 def _merge(ctx, results, st, tag):
+    sampled = [0]
     for wst, viols, outcomes, samples in results:
         for k, n in wst.items():
             st[k] += n
@@ -723,7 +724,9 @@ def _merge(ctx, results, st, tag):
             else:
                 ctx.report(k, first[k][0] if k in first else "", first[k][1] if k in first else None)
         for s in samples:
-            ctx.sample(s)
+            if sampled[0] < 2:
+                sampled[0] += 1
+                ctx.sample(s)
 
 
 def _pmap_rot(fn, chunks, seed):
